@@ -106,7 +106,7 @@ func c06Lanes(c *Ctx, W int) {
 		for _, e := range src.A.Elems {
 			e.(*bitdom.BV).Signed = true
 		}
-		ex, err := in.Call(inFn, laneArgs(inFn, W, &bitdom.Ptr{Cell: &bitdom.Cell{V: s}}, src, idx))
+		ex, err := in.Call(inFn, laneArgs(inFn, W, &bitdom.Ptr{Cell: &bitdom.Cell{V: s}}, src, idx, laneBitForm(c, inFn)))
 		if err != nil || ex.Panic {
 			note("in(idx=%d): %v", idx, err)
 			return
@@ -182,7 +182,7 @@ func c06Lanes(c *Ctx, W int) {
 		for _, e := range dst.A.Elems {
 			e.(*bitdom.BV).Signed = true
 		}
-		ex, err := in.Call(outFn, laneArgs(outFn, W, &bitdom.Ptr{Cell: &bitdom.Cell{V: s}}, dst, idx))
+		ex, err := in.Call(outFn, laneArgs(outFn, W, &bitdom.Ptr{Cell: &bitdom.Cell{V: s}}, dst, idx, laneBitForm(c, outFn)))
 		if err != nil || ex.Panic {
 			note("out(idx=%d): %v", idx, err)
 			return
@@ -658,7 +658,8 @@ func laneCall(t *ana.Term, name, coll string) bool {
 			kinds += "L"
 		case matches("ind<+243>(0)", a):
 			kinds += "O"
-		case matches("alt("+k+", conv<uint>("+k+"), conv<int>("+k+"))", a):
+		case matches("alt("+k+", conv<uint>("+k+"), conv<int>("+k+"))", a), matches(laneBit, a):
+			// the lane, or its bit 1<<k (laneBitForm: then at every call, and engine B hands the routine that bit)
 			kinds += "K"
 		default:
 			return false
@@ -674,7 +675,31 @@ func laneCall(t *ana.Term, name, coll string) bool {
 // laneArgs builds the arguments of the lane routines in / out from their signature: the receiver, the trit slice,
 // and the lane index as the last integer parameter; an integer parameter before it is the trit offset into the
 // slice (0 here: the slice starts at the block).
-func laneArgs(fn *ssa.Function, W int, recv bitdom.Val, trits bitdom.Val, idx int) []bitdom.Val {
+// laneBitForm: every call of the lane routine fn in the package hands it the lane's bit 1<<k instead of the lane k.
+func laneBitForm(c *Ctx, fn *ssa.Function) bool {
+	n, bit := 0, 0
+	for _, g := range c.P.RepoFuncs("pkg/curl") {
+		gb := ana.NewBuilder(c.P, g)
+		for _, ci := range ana.Calls(g) {
+			if ci.Common().StaticCallee() != fn {
+				continue
+			}
+			n++
+			t := stripObj(gb.CallTermAt(ci))
+			for _, a := range t.Args[1:] {
+				if matches(laneBit, a) {
+					bit++
+				}
+			}
+		}
+	}
+	return n > 0 && bit == n
+}
+
+const laneK = "bin<+>(ind<+1>(-1), 1)"
+const laneBit = "bin<<<>(1, alt(" + laneK + ", conv<uint>(" + laneK + ")))"
+
+func laneArgs(fn *ssa.Function, W int, recv bitdom.Val, trits bitdom.Val, idx int, bit bool) []bitdom.Val {
 	var ints []int
 	for i, p := range fn.Params {
 		if i == 0 {
@@ -691,7 +716,11 @@ func laneArgs(fn *ssa.Function, W int, recv bitdom.Val, trits bitdom.Val, idx in
 			args[i] = recv
 		case len(ints) > 0 && i == ints[len(ints)-1]:
 			bt := p.Type().Underlying().(*types.Basic)
-			args[i] = bitdom.ConstBV(uint64(idx), W, bt.Info()&types.IsUnsigned == 0)
+			lv := uint64(idx)
+			if bit {
+				lv = uint64(1) << uint(idx)
+			}
+			args[i] = bitdom.ConstBV(lv, W, bt.Info()&types.IsUnsigned == 0)
 		case len(ints) > 1 && i == ints[0]:
 			bt := p.Type().Underlying().(*types.Basic)
 			args[i] = bitdom.ConstBV(0, W, bt.Info()&types.IsUnsigned == 0)
